@@ -10,6 +10,7 @@
 import WD.Proofs.Decoders
 import WD.Proofs.Mac.Sticky
 import WD.Proofs.Win.Burst
+import WD.Proofs.Win.BurstGrow
 namespace WD.C20
 open WD.Dec
 
@@ -97,6 +98,29 @@ example :
       [⟨.FileCreatedEvent, "W/d/a", "", false⟩, ⟨.FileModifiedEvent, "W/d/a", "", false⟩,
        ⟨.FileMovedEvent, "W/d/a", "W/b", false⟩, ⟨.FileDeletedEvent, "W/b", "", false⟩,
        ⟨.FileCreatedEvent, "W/d/a", "", false⟩] := by
+  decide +kernel
+
+/-- Windows, several operations per read, GROWTH: a burst of mkdirs and file creations at any depth (`mkdir -p` + populate)
+    whose records reach `queue_events` in ONE read after the last of them, recursive watch or not.  One read per operation
+    and one read per burst do NOT deliver the same list here: the emitter asks `os.path.isdir` and walks a new directory
+    when it gets to its record, i.e. it sees what the later operations of the burst put inside, and those entries have
+    records of their own - they are announced twice.  What holds: the emitter's state is untouched and replaying the
+    delivered stream on the tree before the burst gives the tree after it (recursive: the whole tree; non-recursive: the
+    root's direct children). -/
+theorem win_burst_grow_partial (s : Win.WSys) (ops : List Op) (hwf : s.fs.WF) (hs : s.st.stopped = false)
+    (hv : allGrow s.fs ops = true) :
+    (s.burst ops).1 = { s with fs := fsRun s.fs ops } ∧
+    sameTree (replay (Win.treeOf s.recursive s.fs) (s.burst ops).2) (Win.treeOf s.recursive (fsRun s.fs ops)) :=
+  Win.burst_grow s ops hwf hs hv
+
+/-- non-vacuity: a directory, a directory and a file inside it, all in one read: `W/a/b` and `W/a/f` are announced twice -/
+example :
+    let s : Win.WSys := ⟨FS.init, {}, true⟩
+    let ops := [Op.mkdir ["W", "a"], .mkdir ["W", "a", "b"], .create ["W", "a", "f"]]
+    allGrow s.fs ops = true ∧
+    (s.burst ops).2.map PEv.toEvent =
+      [⟨.DirCreatedEvent, "W/a", "", false⟩, ⟨.DirCreatedEvent, "W/a/b", "", true⟩, ⟨.FileCreatedEvent, "W/a/f", "", true⟩,
+       ⟨.DirCreatedEvent, "W/a/b", "", false⟩, ⟨.FileCreatedEvent, "W/a/f", "", false⟩] := by
   decide +kernel
 
 /-- FSEvents: for every such history, every operation drained, the delivered stream is the FSEvents contract's
